@@ -48,7 +48,7 @@ pub fn root() -> proc_macro2::TokenStream {
     quote::quote! { ::dfir_rs }
 }
 
-pub fn build_flat(text: &str) -> Result<Result<DfirGraph, Vec<String>>, String> {
+pub fn build_flat(text: &str) -> Result<Result<(DfirGraph, Diagnostics), Vec<String>>, String> {
     let code: DfirCode = syn::parse_str(text).map_err(|e| format!("parse error: {e}"))?;
     let built = catch(|| FlatGraphBuilder::from_dfir(code).build());
     match built {
@@ -58,7 +58,7 @@ pub fn build_flat(text: &str) -> Result<Result<DfirGraph, Vec<String>>, String> 
             if diagnostics.has_error() {
                 return Ok(Err(diagnostics.iter().map(|d| d.message.clone()).collect()));
             }
-            Ok(Ok(flat_graph))
+            Ok(Ok((flat_graph, diagnostics)))
         }
     }
 }
@@ -70,7 +70,7 @@ pub fn has_adjacent_handoffs(g: &DfirGraph) -> bool {
 }
 
 pub fn run(text: &str) -> Run {
-    let mut flat = match build_flat(text) {
+    let (mut flat, mut diags) = match build_flat(text) {
         Err(e) => return Run { flat0: None, flat: None, stage: Stage::ParseErr(e) },
         Ok(Err(msgs)) => {
             let stage = if msgs.first().is_some_and(|m| m.starts_with("PANIC: ")) {
@@ -98,7 +98,6 @@ pub fn run(text: &str) -> Run {
         Ok(Err(e)) => Stage::PartErr { message: e.diagnostic.message.clone() },
         Ok(Ok(graph)) => {
             let part = Snap::of(&graph);
-            let mut diags = Diagnostics::new();
             let code = match catch(|| graph.as_code(&root(), true, quote::quote! {}, &mut diags)) {
                 Err(p) => Err(format!("PANIC: {p}")),
                 Ok(Err(d)) => Err(format!(
